@@ -53,13 +53,15 @@ def build(edges):
     return ids, adj, elist
 
 
-def bfs_paths(adj, init):
-    """shortest edge path from init to every state"""
+def bfs_paths(adj, init, elist=None):
+    """shortest edge path from init to every state (never through an injected-failure edge)"""
     prev = {init: None}
     dq = deque([init])
     while dq:
         s = dq.popleft()
         for eid, t in adj[s]:
+            if elist is not None and elist[eid][1].get('fault', 0) > 0:
+                continue
             if t not in prev:
                 prev[t] = (s, eid)
                 dq.append(t)
@@ -74,7 +76,7 @@ def bfs_paths(adj, init):
 
 
 def cover(adj, elist, init, maxlen):
-    prev, path = bfs_paths(adj, init)
+    prev, path = bfs_paths(adj, init, elist)
     depth = {}
     for s in prev:
         depth[s] = len(path(s))
@@ -93,6 +95,9 @@ def cover(adj, elist, init, maxlen):
         walk.append(e0)
         uncovered.discard(e0)
         cur = elist[e0][2]
+        if elist[e0][1].get('fault', 0) > 0:
+            walks.append(walk)      # an injected failure ends the history (plus its fixed suffix)
+            continue
         probe_next = elist[e0][1]['n'] in MUTATORS
         nprobe = e0
         while len(walk) < maxlen:
@@ -110,12 +115,14 @@ def cover(adj, elist, init, maxlen):
                     cur = t
                     continue
             # prefer an uncovered edge out of cur; else an edge to a state that has uncovered edges
-            cand = [(eid, t) for eid, t in adj[cur] if eid in uncovered]
+            cand = [(eid, t) for eid, t in adj[cur] if eid in uncovered and elist[eid][1].get('fault', 0) == 0]
             if cand:
                 eid, t = cand[0]
             else:
                 nxt = None
                 for eid, t in adj[cur]:
+                    if elist[eid][1].get('fault', 0) > 0:
+                        continue
                     if t != cur and any(e2 in uncovered for e2, _ in adj[t]):
                         nxt = (eid, t)
                         break
@@ -148,6 +155,17 @@ def all_paths(adj, init, depth):
     return walks
 
 
+def fault_suffix(a):
+    """after an operation with an injected allocation failure: one more operation that is valid whether or not the
+    failure fired, showing that the operand is still usable (C17: assignable / reservable)"""
+    args = ' '.join(str(x) for x in a['a'])
+    if a['n'] in ('CopyAssign', 'Reserve', 'ElemCopyAssign'):
+        return ['O %s %d %s' % (a['n'], a['v'], args)]
+    if a['n'] == 'MoveAssign':
+        return ['O Clear %d ' % a['v']]
+    return []
+
+
 def write_plan(walks, elist, out, first_id=1):
     with open(out, 'w') as f:
         hid = first_id
@@ -155,7 +173,12 @@ def write_plan(walks, elist, out, first_id=1):
             f.write('H %d\n' % hid)
             for eid in w:
                 a = elist[eid][1]
+                if a.get('fault', 0) > 0:
+                    f.write('O Fail %d\n' % a['fault'])
                 f.write('O %s %d %s\n' % (a['n'], a['v'], ' '.join(str(x) for x in a['a'])))
+                if a.get('fault', 0) > 0:
+                    for ln in fault_suffix(a):
+                        f.write(ln + '\n')
             f.write('E\n')
             hid += 1
 
